@@ -120,7 +120,7 @@ var c12SysNames = []string{"main", "foo", "bar", "runtime.mallocgc", "", "_", "_
 	"_Z3fooIiEvT_", "_ZNSt6vectorIiSaIiEE9push_backEOi", "_ZN1a1bC2Ev", "foo::bar(int)", "vector<int>::size()",
 	"<unknown>", "<lambda>", "()", "(anonymous namespace)::f(int)", "class.<init>", "foo.(*Bar[...]).Method",
 	"operator<<", "a>b", "f(g(h))", "((", "))", "a<b<c>>::d(e<f>)", "x<y", "ns::f<T>(U<V>)", "[clone]", "f() [clone .cold]",
-	"_foo", "_ZN3fooE.cold", "<>", "(<)>", "a::b", "a)b(c", "<(>)", "_Zbogus"}
+	"_foo", "_ZN3fooE.cold", "<>", "(<)>", "a::b", "a)b(c", "<(>)", "_Zbogus", " <T>", "(int) ", " (a)<b>\t"}
 
 var c12Files = []string{"/bin/app", "/bin/app", "/lib/libc.so.6", "", "[vdso]", "linux-vdso.so.1", "/dev/dri/card0", "//anon",
 	"http://host/debug/pprof/profile", "https://h.example/bin", "HTTP://x/y", "ftp://h/f", "dir/[x]", "/", "app/", "[heap",
@@ -496,7 +496,7 @@ func c12SymN(c *Ctx, gen, mode string, p *profile.Profile, ms plugin.MappingSour
 func runC12(c *Ctx) {
 	r := c.R
 	// 1. whole-Symbolize cases: random valid profile x mode x script x sources
-	n := c.Budget(650, 6000)
+	n := c.Budget(540, 6000)
 	for k := 0; k < n; k++ {
 		p := c12Profile(r, false)
 		ms := c12Sources_(r, p)
@@ -507,7 +507,7 @@ func runC12(c *Ctx) {
 		c12Sym(c, "random", mode, p, ms, c12ScriptGen(r, p, ms, 7))
 	}
 	// 2. no failures: everything answers, so that symbolization goes deep
-	for k := 0; k < c.Budget(200, 1500); k++ {
+	for k := 0; k < c.Budget(170, 1500); k++ {
 		p := c12Profile(r, false)
 		for _, m := range p.Mapping {
 			if r.P(2, 3) {
@@ -584,7 +584,7 @@ func runC12(c *Ctx) {
 	}
 	// regular expression of symbolz answers: lines over a small alphabet around the syntax
 	alpha := []string{"0", "x", "0x", "1f", "A", "g", " ", "\t", "\r", "\f", "\v", "  ", "name", "0x1", "X", "+", "\xff"}
-	for k := 0; k < c.Budget(300, 5000); k++ {
+	for k := 0; k < c.Budget(200, 5000); k++ {
 		var sb strings.Builder
 		for j := r.Intn(8); j > 0; j-- {
 			sb.WriteString(PickS(r, alpha))
@@ -599,7 +599,7 @@ func runC12(c *Ctx) {
 	}
 	// removeMatching / looksLikeDemangledCPlusPlus over names built from brackets
 	br := []string{"(", ")", "<", ">", "a", "::", "b", "[", "]", ".<", "]).", ""}
-	for k := 0; k < c.Budget(300, 5000); k++ {
+	for k := 0; k < c.Budget(200, 5000); k++ {
 		var name string
 		if r.P(1, 4) {
 			name = PickS(r, c12SysNames)
